@@ -25,6 +25,10 @@ type Plan struct {
 	Schema abs.Schema // abstract schema
 	Text   string     // .bop text (rendered from Schema unless given)
 	Opts   []string   // generator option names
+	// schemas with imports: the other files (relative path -> text); the root is then read from a real file so that
+	// Generate resolves the imports relative to it. SrcDir is set by Build.
+	Files  map[string]string
+	SrcDir string
 }
 
 type Built struct {
@@ -75,7 +79,25 @@ func GenerateOne(p *Plan) (b *Built, src []byte) {
 	if p.Text == "" {
 		p.Text = abs.Render(p.Schema)
 	}
-	f, warns, err := bebop.ReadFile(strings.NewReader(p.Text))
+	var f bebop.File
+	var warns []string
+	var err error
+	if len(p.Files) > 0 && p.SrcDir != "" {
+		if err = os.MkdirAll(p.SrcDir, 0o755); err == nil {
+			for name, text := range p.Files {
+				_ = os.WriteFile(filepath.Join(p.SrcDir, name), []byte(text), 0o644)
+			}
+			rp := filepath.Join(p.SrcDir, "root.bop")
+			_ = os.WriteFile(rp, []byte(p.Text), 0o644)
+			var fh *os.File
+			if fh, err = os.Open(rp); err == nil {
+				f, warns, err = bebop.ReadFile(fh)
+				fh.Close()
+			}
+		}
+	} else {
+		f, warns, err = bebop.ReadFile(strings.NewReader(p.Text))
+	}
 	b.Warnings = warns
 	if err != nil {
 		b.ReadErr = err.Error()
@@ -156,6 +178,9 @@ func Build(dir string, plans []*Plan, needWorker bool) (*Workspace, error) {
 		go func() {
 			defer wg.Done()
 			defer func() { <-sem }()
+			if len(p.Files) > 0 {
+				p.SrcDir = filepath.Join(dir, "src", p.Pid)
+			}
 			b, src := GenerateOne(p)
 			if b.Accepted {
 				pd := filepath.Join(dir, "gen", p.Pid)
